@@ -45,7 +45,13 @@ pub fn gen_wt_case(seed: u64, salt: &str, idx: u64, cfg: &Cfg, st: &mut Stats) -
         cfg
     };
     for _try in 0..40 {
-        let prog = generate(&mut rng, cfg);
+        let mut prog = generate(&mut rng, cfg);
+        let mut rec_shadows = (0, 0);
+        if cfg.rec_shadow_every > 0 && idx % cfg.rec_shadow_every == 1 % cfg.rec_shadow_every {
+            // rec binders named like something the same statement uses in front of them (own random stream: the other
+            // cases stay what they were)
+            rec_shadows = crate::gen::twin::add_rec_shadows(&mut prog, &mut Rng::for_case(seed, "rec-shadows", idx));
+        }
         match expected(&prog) {
             Ok(exp) => {
                 if let Expected::Doc { flags, .. } = &exp {
@@ -60,6 +66,8 @@ pub fn gen_wt_case(seed: u64, salt: &str, idx: u64, cfg: &Cfg, st: &mut Stats) -
                         continue;
                     }
                 }
+                st.add("gen_rec_binders_named_like_a_declaration_used_before", rec_shadows.0 as u64);
+                st.add("gen_rec_binders_named_like_a_parameter_used_before", rec_shadows.1 as u64);
                 let printed = print_program(&prog);
                 let sources = sources_of(&printed);
                 return Some(WtCase {
